@@ -2240,6 +2240,19 @@ impl StorageEngine {
         0
     }
 
+    /// Position of an element in cursor order for SCAN, HSCAN, SSCAN and ZSCAN. It depends on
+    /// the element's name only (FNV-1a, never 0), so elements that are added or deleted between
+    /// two calls do not move the others: a cursor is the smallest position not yet visited, and
+    /// every element that stays in place is visited exactly once per iteration.
+    fn scan_slot(name: &[u8]) -> u64 {
+        let mut hash: u64 = 0xcbf29ce484222325;
+        for byte in name {
+            hash ^= *byte as u64;
+            hash = hash.wrapping_mul(0x100000001b3);
+        }
+        if hash == 0 { 1 } else { hash }
+    }
+
     /// Scan operations - optimized for sharded access, NO access time tracking
     pub fn scan(&self, db: DatabaseIndex, cursor: u64, pattern: Option<&[u8]>, type_filter: Option<&str>, count: usize) -> Result<(u64, Vec<Vec<u8>>)> {
         let database = self.databases.get(db).ok_or(StorageError::InvalidDatabase)?;
@@ -2275,9 +2288,9 @@ impl StorageEngine {
             }
         }
         
-        all_keys.sort();
+        all_keys.sort_by_cached_key(|item| Self::scan_slot(item));
         
-        let start_pos = if cursor == 0 { 0 } else { cursor as usize };
+        let start_pos = all_keys.partition_point(|item| Self::scan_slot(item) < cursor);
         if start_pos >= all_keys.len() && !all_keys.is_empty() {
             return Ok((0, Vec::new()));
         }
@@ -2288,7 +2301,10 @@ impl StorageEngine {
         
         let pattern_str = pattern.map(|p| String::from_utf8_lossy(p));
         
-        while keys_examined < max_scan_count * 10 && matching_keys.len() < max_scan_count {
+        while (keys_examined < max_scan_count * 10 && matching_keys.len() < max_scan_count)
+            // elements sharing one position are never split between two calls
+            || (current_pos > start_pos && current_pos < all_keys.len()
+                && Self::scan_slot(&all_keys[current_pos]) == Self::scan_slot(&all_keys[current_pos - 1])) {
             if current_pos >= all_keys.len() {
                 break;
             }
@@ -2314,7 +2330,7 @@ impl StorageEngine {
         let next_cursor = if current_pos >= all_keys.len() {
             0
         } else {
-            current_pos as u64
+            Self::scan_slot(&all_keys[current_pos])
         };
         
         Ok((next_cursor, matching_keys))
@@ -2338,9 +2354,9 @@ impl StorageEngine {
                 }
                 
                 let mut fields: Vec<Vec<u8>> = hash.keys().cloned().collect();
-                fields.sort();
+                fields.sort_by_cached_key(|item| Self::scan_slot(item));
                 
-                let start_pos = if cursor == 0 { 0 } else { cursor as usize };
+                let start_pos = fields.partition_point(|item| Self::scan_slot(item) < cursor);
                 if start_pos >= fields.len() && !fields.is_empty() {
                     return Ok((0, Vec::new()));
                 }
@@ -2350,7 +2366,10 @@ impl StorageEngine {
                 let mut current_pos = start_pos;
                 let pattern_str = pattern.map(|p| String::from_utf8_lossy(p));
                 
-                while fields_examined < max_scan_count * 10 && (result.len() / if no_values { 1 } else { 2 }) < max_scan_count {
+                while (fields_examined < max_scan_count * 10 && (result.len() / if no_values { 1 } else { 2 }) < max_scan_count)
+                    // elements sharing one position are never split between two calls
+                    || (current_pos > start_pos && current_pos < fields.len()
+                        && Self::scan_slot(&fields[current_pos]) == Self::scan_slot(&fields[current_pos - 1])) {
                     if current_pos >= fields.len() {
                         break;
                     }
@@ -2380,7 +2399,7 @@ impl StorageEngine {
                 let next_cursor = if current_pos >= fields.len() {
                     0
                 } else {
-                    current_pos as u64
+                    Self::scan_slot(&fields[current_pos])
                 };
                 
                 Ok((next_cursor, result))
@@ -2405,9 +2424,9 @@ impl StorageEngine {
                 }
                 
                 let mut members: Vec<Vec<u8>> = set.iter().cloned().collect();
-                members.sort();
+                members.sort_by_cached_key(|item| Self::scan_slot(item));
                 
-                let start_pos = if cursor == 0 { 0 } else { cursor as usize };
+                let start_pos = members.partition_point(|item| Self::scan_slot(item) < cursor);
                 if start_pos >= members.len() && !members.is_empty() {
                     return Ok((0, Vec::new()));
                 }
@@ -2417,7 +2436,10 @@ impl StorageEngine {
                 let mut current_pos = start_pos;
                 let pattern_str = pattern.map(|p| String::from_utf8_lossy(p));
                 
-                while members_examined < max_scan_count * 10 && result.len() < max_scan_count {
+                while (members_examined < max_scan_count * 10 && result.len() < max_scan_count)
+                    // elements sharing one position are never split between two calls
+                    || (current_pos > start_pos && current_pos < members.len()
+                        && Self::scan_slot(&members[current_pos]) == Self::scan_slot(&members[current_pos - 1])) {
                     if current_pos >= members.len() {
                         break;
                     }
@@ -2443,7 +2465,7 @@ impl StorageEngine {
                 let next_cursor = if current_pos >= members.len() {
                     0
                 } else {
-                    current_pos as u64
+                    Self::scan_slot(&members[current_pos])
                 };
                 
                 Ok((next_cursor, result))
@@ -2469,13 +2491,13 @@ impl StorageEngine {
                     items.push((member, score));
                 }
                 
-                items.sort_by(|a, b| a.0.cmp(&b.0));
+                items.sort_by_cached_key(|item| Self::scan_slot(&item.0));
                 
                 if items.len() <= max_scan_count && cursor == 0 && pattern.is_none() {
                     return Ok((0, items));
                 }
                 
-                let start_pos = if cursor == 0 { 0 } else { cursor as usize };
+                let start_pos = items.partition_point(|item| Self::scan_slot(&item.0) < cursor);
                 if start_pos >= items.len() && !items.is_empty() {
                     return Ok((0, Vec::new()));
                 }
@@ -2485,7 +2507,10 @@ impl StorageEngine {
                 let mut current_pos = start_pos;
                 let pattern_str = pattern.map(|p| String::from_utf8_lossy(p));
                 
-                while items_examined < max_scan_count * 10 && result.len() < max_scan_count {
+                while (items_examined < max_scan_count * 10 && result.len() < max_scan_count)
+                    // elements sharing one position are never split between two calls
+                    || (current_pos > start_pos && current_pos < items.len()
+                        && Self::scan_slot(&items[current_pos].0) == Self::scan_slot(&items[current_pos - 1].0)) {
                     if current_pos >= items.len() {
                         break;
                     }
@@ -2511,7 +2536,7 @@ impl StorageEngine {
                 let next_cursor = if current_pos >= items.len() {
                     0
                 } else {
-                    current_pos as u64
+                    Self::scan_slot(&items[current_pos].0)
                 };
                 
                 Ok((next_cursor, result))
